@@ -51,13 +51,13 @@ Print Assumptions C38_roundtrip_poly3d.
 (* The restart entry read from a pvd file is the one with the numerically largest timestep
    attribute (whatever was passed as write_pvd(times=...): physical times; by default the
    step indices), the files imported are exactly the files LISTED with that timestep, and
-   the time index returned is the numeric suffix of the first of them. *)
+   the time index returned is the largest numeric suffix among them. *)
 Theorem C38_pvd_latest :
   forall (F : Type) (suffix : F -> Z) (entries : list (Z * F)),
     entries <> [] ->
     exists m,
       restart_files suffix entries
-      = Some (first_suffix suffix (map snd (filter (fun e => Z.eqb (fst e) m) entries)),
+      = Some (max_suffix suffix (map snd (filter (fun e => Z.eqb (fst e) m) entries)),
               map snd (filter (fun e => Z.eqb (fst e) m) entries)) /\
       In m (map fst entries) /\ Forall (fun e => (fst e <= m)%Z) entries.
 Proof. exact @restart_latest. Qed.
@@ -71,9 +71,16 @@ Theorem C38_pvd_most_recent :
   forall (F : Type) (suffix : F -> Z) (older : list (Z * F)) (t : Z) (f : F) (last : list F),
     Forall (fun e => (fst e < t)%Z) older ->
     restart_files suffix (older ++ map (fun g => (t, g)) (f :: last))
-    = Some (suffix f, f :: last).
+    = Some (max_suffix suffix (f :: last), f :: last).
 Proof. exact @restart_most_recent. Qed.
 Print Assumptions C38_pvd_most_recent.
+
+(* ... and when these files all carry the time-step index k, the index returned is k. *)
+Theorem C38_pvd_index :
+  forall (F : Type) (suffix : F -> Z) (k : Z) (f : F) (r : list F),
+    suffix f = k -> Forall (fun g => suffix g = k) r -> max_suffix suffix (f :: r) = k.
+Proof. exact @max_suffix_same. Qed.
+Print Assumptions C38_pvd_index.
 
 (* Time information: after ANY non-empty sequence of (time, dt) writes by a time manager
    with an empty history, the file on disk loaded by any other time manager gives back the
